@@ -594,3 +594,466 @@ def leaves(l, base=0, cap=64):
     if len(out) > cap:
         raise Uninterpretable('aggregate with more than %d scalar members' % cap)
     return out
+
+
+# --------------------------------------------------------------------------------
+# ownership of type objects: which objects may a function modify?
+# --------------------------------------------------------------------------------
+FRESH, SHARED, TAG = 'fresh', 'shared', 'tag'
+
+
+def _norm_t(t):
+    return ' '.join((t or '').replace('const ', ' ').replace('volatile ', ' ').replace('struct ', ' ').replace('*', ' * ').split())
+
+
+class Ownership:
+    """Flow-sensitive may-provenance of the pointers a function stores through, over clang's AST of every unit.
+
+    A pointer value is described by a set of atoms: FRESH (an object this activation allocated: calloc/malloc, the result of a
+    function that only returns such objects, or the address of a local), ('param', i) (what the i-th parameter pointed to on entry,
+    or something reached from it), TAG (the object a tag lookup `&scope->tags` yields: the struct/union type a definition completes),
+    SHARED (anything else: a global, the value of a `Type *` field, the result of any other call). Assignments to locals are strong
+    updates, control flow joins by union, loops run to a fixpoint. A load of a pointer to a protected record yields SHARED when the
+    pointee is `share_loads` (type objects form a shared graph) and the provenance of the object loaded from otherwise (a member list
+    belongs to its type object). Per function the analysis yields
+      .stores[(unit, fn)]  = [(record, field | '*', atoms, line)]     stores into objects of a protected record
+      .ret[fn]             = atoms of the values it returns
+      .writes[fn]          = {param index: {(record, field)}} objects reached from a parameter that it (or a callee) modifies
+      .calls[(unit, fn)]   = [(callee, param index, {(record, field)}, atoms of the argument, line)] for such callees
+    computed as a fixpoint over all functions (recursion included)."""
+
+    ALLOC = ('calloc', 'malloc')
+    WHOLE = ('memcpy', 'memset', 'memmove')
+
+    def __init__(self, units, protected, share_loads, tag_field='tags', skip_fields=()):
+        self.units = units
+        self.protected = set(protected)
+        self.share_loads = set(share_loads)
+        self.tag_field = tag_field
+        self.skip = set(skip_fields)
+        self.fns = {}
+        for u in units:
+            for name, fd in u.functions.items():
+                self.fns.setdefault(name, (u, fd))
+        self.ret = {f: frozenset() for f in self.fns}
+        self.writes = {f: {} for f in self.fns}
+        self.stores, self.calls, self.gaps = {}, {}, {}
+        self.rounds = 0
+        for _ in range(40):
+            self.rounds += 1
+            self.changed = False
+            for name, (u, fd) in self.fns.items():
+                self._function(u, name, fd)
+            if not self.changed:
+                break
+        else:
+            raise AnalysisBroken('ownership summaries of the functions do not stabilise')
+
+    # -- types ---------------------------------------------------------------------
+    def _pointee(self, n):
+        """protected record a pointer-typed expression points to, else None"""
+        for t in (n.type, n.dtype):
+            w = _norm_t(t).split()
+            if len(w) == 2 and w[1] == '*' and w[0] in self.protected:
+                return w[0]
+        return None
+
+    def _record(self, n):
+        for t in (n.type, n.dtype):
+            w = _norm_t(t)
+            if w in self.protected:
+                return w
+        return None
+
+    @staticmethod
+    def _is_ptr(n):
+        return _norm_t(n.dtype or n.type).endswith('*')
+
+    # -- one function ----------------------------------------------------------------
+    def _function(self, u, name, fd):
+        self.cur = (u.name, name)
+        self.locals = {}
+        params = [c for c in fd.inner if c.kind == 'ParmVarDecl']
+        for n in fd.walk():
+            if n.kind == 'VarDecl' and n.d.get('storageClass') not in ('static', 'extern'):
+                self.locals[n.id] = n
+        st = {}
+        for i, p in enumerate(params):
+            self.locals[p.id] = p
+            if self._is_ptr(p):
+                st[p.id] = frozenset([('param', i)])
+        self.pidx = {p.id: i for i, p in enumerate(params)}
+        body = [c for c in fd.inner if c.kind == 'CompoundStmt']
+        self.labels = {}
+        has_goto = any(n.kind in ('GotoStmt', 'LabelStmt', 'IndirectGotoStmt') for n in fd.walk())
+        for _ in range(20 if has_goto else 1):
+            self.f_stores, self.f_calls, self.f_gaps = {}, {}, {}
+            self.f_ret = set()
+            self.f_writes = {}
+            self.frames = []
+            before = dict(self.labels)
+            self._exec(body[0], dict(st))
+            if self.labels == before:
+                break
+        else:
+            raise AnalysisBroken('label states of %s() do not stabilise' % name)
+        self.stores[self.cur] = list(self.f_stores.values())
+        self.calls[self.cur] = list(self.f_calls.values())
+        self.gaps[self.cur] = list(self.f_gaps.values())
+        r = frozenset(self.f_ret) | self.ret[name]
+        if r != self.ret[name]:
+            self.ret[name] = r
+            self.changed = True
+        w = self.writes[name]
+        for i, fields in self.f_writes.items():
+            if not fields <= w.get(i, set()):
+                w[i] = w.get(i, set()) | fields
+                self.changed = True
+
+    # -- states ------------------------------------------------------------------------
+    @staticmethod
+    def _join(a, b):
+        if a is None:
+            return b
+        if b is None:
+            return a
+        out = {}
+        for k, v in a.items():
+            if isinstance(k, tuple):
+                if k in b:                  # a remembered field value survives a join only when both sides remember one
+                    out[k] = v | b[k]
+            else:
+                out[k] = v | b.get(k, frozenset())
+        for k, v in b.items():
+            if not isinstance(k, tuple) and k not in out:
+                out[k] = v
+        return out
+
+    # -- remembered values of pointer fields (`x->ty = copy_type(...); x->ty->size = 0;`) ------------------
+    def _place(self, n):
+        """structural key of a chain local(->|.)field...; None for anything else"""
+        n = n.strip()
+        if n.kind == 'DeclRefExpr':
+            return ('v', n.ref_id) if n.ref_id in self.locals else None
+        if n.kind == 'MemberExpr':
+            b = self._place(n.inner[0])
+            return None if b is None else b + (n.name,)
+        return None
+
+    @staticmethod
+    def _forget(st, var=None, field=None):
+        for k in [k for k in st if isinstance(k, tuple)]:
+            if (var is None and field is None) or (var is not None and k[2] == var) or (field is not None and field in k[3:]):
+                del st[k]
+
+    def _loop(self, st, cond, inc, body, do=False):
+        entry = st
+        out = None
+        for _ in range(50):
+            self.frames.append({'break': None, 'continue': None})
+            s = dict(entry)
+            if cond is not None and not do:
+                self._eval(cond, s)
+            after_cond = dict(s)
+            s = self._exec(body, s) if body is not None else s
+            fr = self.frames.pop()
+            s = self._join(s, fr['continue'])
+            if s is not None:
+                if do and cond is not None:
+                    self._eval(cond, s)
+                if inc is not None:
+                    self._eval(inc, s)
+            exit_state = self._join(after_cond if (cond is not None and not do) else None, fr['break'])
+            if do and s is not None:
+                exit_state = self._join(exit_state, s)
+            out = self._join(out, exit_state)
+            new_entry = self._join(entry, s)
+            if new_entry == entry:
+                break
+            entry = new_entry
+        else:
+            raise AnalysisBroken('loop state does not stabilise in %s()' % self.cur[1])
+        return out
+
+    def _exec(self, s, st):
+        """state after the statement (None: control does not fall through)"""
+        k = s.kind
+        if st is None and k not in ('CompoundStmt', 'LabelStmt', 'CaseStmt', 'DefaultStmt'):
+            if not any(x.kind in ('LabelStmt', 'CaseStmt', 'DefaultStmt') for x in s.walk()):
+                return None
+            st = {}
+        if k == 'CompoundStmt':
+            for c in s.inner:
+                st = self._exec(c, st)
+            return st
+        if k == 'DeclStmt':
+            for d in s.inner:
+                if d.kind == 'VarDecl' and 'init' in d.d and d.inner:
+                    v = self._eval(d.inner[-1], st)
+                    if d.id in self.locals and self._is_ptr(d):
+                        st[d.id] = v
+                elif d.kind == 'VarDecl' and d.id in self.locals and self._is_ptr(d):
+                    st[d.id] = frozenset()
+            return st
+        if k == 'IfStmt':
+            self._eval(s.inner[0], st)
+            a = self._exec(s.inner[1], dict(st))
+            b = self._exec(s.inner[2], dict(st)) if len(s.inner) > 2 else st
+            return self._join(a, b)
+        if k == 'WhileStmt':
+            return self._loop(st, s.inner[0], None, s.inner[1])
+        if k == 'DoStmt':
+            return self._loop(st, s.inner[1], None, s.inner[0], do=True)
+        if k == 'ForStmt':
+            raw = s.d.get('inner', [])
+            it = iter(s.inner)
+            slots = [(next(it) if (isinstance(r, dict) and r) else None) for r in raw]
+            init, _cv, cond, inc, body = (slots + [None] * 5)[:5]
+            if init is not None:
+                st = self._exec(init, st) if init.kind.endswith('Stmt') else (self._eval(init, st), st)[1]
+            return self._loop(st, cond, inc, body)
+        if k == 'SwitchStmt':
+            self._eval(s.inner[0], st)
+            self.frames.append({'break': None, 'switch': dict(st)})
+            out = self._exec(s.inner[-1], None)
+            fr = self.frames.pop()
+            return self._join(self._join(out, fr['break']), st)
+        if k in ('CaseStmt', 'DefaultStmt'):
+            sw = None
+            for fr in reversed(self.frames):
+                if 'switch' in fr:
+                    sw = fr['switch']
+                    break
+            st = self._join(st, dict(sw) if sw is not None else {})
+            return self._exec(s.inner[-1], st)
+        if k == 'LabelStmt':
+            lid = s.d.get('declId')
+            st = self._join(st, self.labels.get(lid))
+            return self._exec(s.inner[-1], st) if s.inner else st
+        if k == 'GotoStmt':
+            lid = s.d.get('targetLabelDeclId')
+            self.labels[lid] = self._join(self.labels.get(lid), st)
+            return None
+        if k == 'IndirectGotoStmt':
+            raise AnalysisBroken('computed goto in %s()' % self.cur[1])
+        if k == 'ReturnStmt':
+            if s.inner:
+                v = self._eval(s.inner[0], st)
+                if self._pointee(s.inner[0]) or self._pointee(s.inner[0].strip()):
+                    self.f_ret |= v
+            return None
+        if k == 'BreakStmt':
+            for fr in reversed(self.frames):
+                if 'break' in fr:
+                    fr['break'] = self._join(fr['break'], st)
+                    break
+            return None
+        if k == 'ContinueStmt':
+            for fr in reversed(self.frames):
+                if 'continue' in fr:
+                    fr['continue'] = self._join(fr['continue'], st)
+                    break
+            return None
+        if k in ('NullStmt',):
+            return st
+        if k.endswith('Stmt') and k not in ('StmtExpr',):
+            for c in s.inner:       # a statement kind without a model: its parts in order (attributed statements, asm)
+                st = self._exec(c, st) if c.kind.endswith('Stmt') else (self._eval(c, st), st)[1]
+            return st
+        self._eval(s, st)
+        return st
+
+    # -- expressions ----------------------------------------------------------------------
+    def _object(self, n, st):
+        """atoms of the object an lvalue expression designates"""
+        n = n.strip()
+        k = n.kind
+        if k == 'DeclRefExpr':
+            return frozenset([FRESH]) if n.ref_id in self.locals and n.ref_id not in self.pidx else (
+                frozenset([FRESH]) if n.ref_id in self.pidx else frozenset([SHARED]))
+        if k == 'MemberExpr':
+            return self._eval(n.inner[0], st) if n.d.get('isArrow') else self._object(n.inner[0], st)
+        if k == 'UnaryOperator' and n.opcode == '*':
+            return self._eval(n.inner[0], st)
+        if k == 'ArraySubscriptExpr':
+            a = self._eval(n.inner[0], st)
+            self._eval(n.inner[1], st)
+            return a
+        if k == 'CompoundLiteralExpr':
+            for c in n.inner:
+                self._eval(c, st)
+            return frozenset([FRESH])
+        if k == 'CStyleCastExpr':
+            return self._object(n.inner[-1], st)
+        self._eval(n, st)
+        return frozenset([SHARED])
+
+    def _store(self, rec, field, atoms, line):
+        if field in self.skip:
+            return
+        key = (rec, field)
+        old = self.f_stores.get(key)
+        self.f_stores[key] = (rec, field, atoms | (old[2] if old else frozenset()), old[3] if old else line)
+        if not atoms:
+            self.f_gaps[key] = (rec, field, line)
+        for a in atoms:
+            if isinstance(a, tuple):
+                self.f_writes.setdefault(a[1], set()).add(key)
+
+    def _assign_target(self, lhs, st, value):
+        """the store a write to the lvalue `lhs` performs; value: atoms assigned (None: read-modify-write)"""
+        l = lhs.strip()
+        if l.kind == 'DeclRefExpr':
+            self._forget(st, var=l.ref_id)
+            if l.ref_id in self.locals and self._is_ptr(l) and value is not None:
+                st[l.ref_id] = value
+            return
+        if l.kind == 'MemberExpr':
+            base = l.inner[0]
+            rec = (self._pointee(base.strip()) or self._pointee(base)) if l.d.get('isArrow') else self._record(base.strip())
+            obj = self._eval(base, st) if l.d.get('isArrow') else self._object(base, st)
+            if rec:
+                self._store(rec, l.name, obj, l.line)
+            self._forget(st, field=l.name)
+            pl = self._place(l)
+            if pl is not None and value is not None and self._pointee(l) is not None:
+                st[('mem',) + pl] = value
+            return
+        rec = self._record(l)
+        obj = self._object(l, st)
+        self._forget(st)
+        if rec:
+            self._store(rec, '*', obj, l.line)
+
+    def _eval(self, n, st):
+        """atoms of the pointer value of an expression (empty for non-pointers and null); performs the side effects on st"""
+        k = n.kind
+        I = n.inner
+        if k in ('ParenExpr', 'ImplicitCastExpr', 'ConstantExpr', 'CStyleCastExpr'):
+            if not I:
+                return frozenset()
+            if n.cast_kind == 'ArrayToPointerDecay':
+                return self._object(I[-1], st)
+            return self._eval(I[-1], st)
+        if k == 'DeclRefExpr':
+            if n.ref_kind in ('FunctionDecl', 'EnumConstantDecl'):
+                return frozenset()
+            if n.ref_id in self.locals:
+                if self._is_ptr(n):
+                    return st.get(n.ref_id, frozenset())
+                return frozenset()
+            return frozenset([SHARED]) if self._is_ptr(n) else frozenset()
+        if k == 'MemberExpr':
+            obj = self._eval(I[0], st) if n.d.get('isArrow') else self._object(I[0], st)
+            if not self._is_ptr(n):
+                return frozenset()
+            p = self._pointee(n)
+            if p is not None:
+                pl = self._place(n)
+                if pl is not None and ('mem',) + pl in st:
+                    return st[('mem',) + pl]
+                if p not in self.share_loads:
+                    return obj
+            return frozenset([SHARED])
+        if k == 'UnaryOperator':
+            op = n.opcode
+            if op == '&':
+                return self._object(I[0], st)
+            if op == '*':
+                self._eval(I[0], st)
+                return frozenset([SHARED]) if self._is_ptr(n) else frozenset()
+            if op in ('++', '--'):
+                v = self._eval(I[0], st)
+                self._assign_target(I[0], st, None)
+                return v
+            self._eval(I[0], st)
+            return frozenset()
+        if k == 'BinaryOperator':
+            op = n.opcode
+            if op == '=':
+                v = self._eval(I[1], st)
+                self._assign_target(I[0], st, v)
+                return v
+            if op == ',':
+                self._eval(I[0], st)
+                return self._eval(I[1], st)
+            if op in ('&&', '||'):
+                self._eval(I[0], st)
+                s2 = dict(st)
+                self._eval(I[1], s2)
+                j = self._join(st, s2)
+                st.clear(); st.update(j)
+                return frozenset()
+            a = self._eval(I[0], st)
+            b = self._eval(I[1], st)
+            return (a | b) if (op in ('+', '-') and self._is_ptr(n)) else frozenset()
+        if k == 'CompoundAssignOperator':
+            v = self._eval(I[0], st)
+            self._eval(I[1], st)
+            self._assign_target(I[0], st, None)
+            return v if self._is_ptr(n) else frozenset()
+        if k in ('ConditionalOperator', 'BinaryConditionalOperator'):
+            self._eval(I[0], st)
+            s1, s2 = dict(st), dict(st)
+            vals = [self._eval(I[1], s1), self._eval(I[-1], s2)]
+            j = self._join(s1, s2)
+            st.clear(); st.update(j)
+            return vals[0] | vals[1]
+        if k == 'CallExpr':
+            return self._call(n, st)
+        if k == 'CompoundLiteralExpr':
+            self._object(n, st)
+            return frozenset()
+        if k == 'StmtExpr':
+            for c in I:
+                self._exec(c, st)
+            return frozenset([SHARED]) if self._is_ptr(n) else frozenset()
+        for c in I:
+            if c.kind.endswith('Decl'):
+                continue
+            self._eval(c, st)
+        if k in ('IntegerLiteral', 'CharacterLiteral', 'FloatingLiteral', 'StringLiteral', 'InitListExpr', 'ImplicitValueInitExpr',
+                 'UnaryExprOrTypeTraitExpr', 'ArraySubscriptExpr', 'PredefinedExpr', 'OffsetOfExpr', 'DesignatedInitExpr'):
+            if k == 'ArraySubscriptExpr' and self._is_ptr(n):
+                return frozenset([SHARED])
+            return frozenset()
+        return frozenset([SHARED]) if self._is_ptr(n) else frozenset()
+
+    def _mentions_tags(self, a):
+        return any(x.kind == 'MemberExpr' and x.name == self.tag_field for x in a.walk())
+
+    def _call(self, n, st):
+        name = n.callee()
+        args = n.args()
+        if name is None:
+            self._eval(n.inner[0], st)
+        vals = [self._eval(a, st) for a in args]
+        isptr = self._is_ptr(n)
+        if name in self.ALLOC:
+            return frozenset([FRESH])
+        self._forget(st)            # the callee may store into any field
+        if name in self.WHOLE and args:
+            rec = self._pointee(args[0].strip()) or self._pointee(args[0].strip_all())
+            if rec:
+                self._store(rec, '*', vals[0], n.line)
+            return vals[0]
+        if isptr and any(self._mentions_tags(a) for a in args):
+            return frozenset([TAG])
+        if name in self.fns:
+            for i, fields in self.writes[name].items():
+                if i < len(vals):
+                    ckey = (name, i)
+                    old = self.f_calls.get(ckey)
+                    self.f_calls[ckey] = (name, i, set(fields), vals[i] | (old[3] if old else frozenset()), old[4] if old else n.line)
+                    for a in vals[i]:
+                        if isinstance(a, tuple):
+                            self.f_writes.setdefault(a[1], set()).update(fields)
+            out = set()
+            for a in self.ret[name]:
+                if isinstance(a, tuple):
+                    if a[1] < len(vals):
+                        out |= vals[a[1]]
+                else:
+                    out.add(a)
+            return frozenset(out) if isptr else frozenset()
+        return frozenset([SHARED]) if isptr else frozenset()
